@@ -784,9 +784,31 @@ def hook_cases(res, pid):
                     ev += [['advance', 1], ['scan', False]] * later
                     ev += [['ready', 0, None, True, 4], ['advance', 1], ['scan', False]]
                     cases.append(dict(cfg=cfg, events=ev))
-    outs = run_impl(cases, timeout=300)
+    # ... and the scan runs while ApplyResult._set is in the job's (slow) result callback: the result has been
+    # processed, the soft limit elapses during the callback: nothing may be signalled on behalf of that job
+    for n in (1, 2):
+        for ok in (True, False):
+            for soft_job in (None, 2):
+                cfg = dict(n=n, soft=None if soft_job else 2, hard=30, enable_timeouts=True)
+                ev = [['apply', soft_job, None, None, None], ['ack', 0, None, n - 1], ['advance', 1],
+                      ['ready_scan', 0, None, ok, 5, 3, False], ['advance', 1], ['scan', False]]
+                cases.append(dict(cfg=cfg, events=ev, expect_soft=0))
+    outs = run_impl([dict(cfg=c['cfg'], events=c['events']) for c in cases], timeout=300)
     for c, o in zip(cases, outs):
         obs = o['obs']
+        if 'expect_soft' in c:
+            n_soft = sum(1 for ob in obs for p_, sg in ob['sigs'] if sg == 10)
+            hook = next((ob for e, ob in zip(o['events'], obs) if e[0] == 'ready_scan'), None)
+            if hook is not None and hook['exc']:
+                res.alarms.append(dict(signature='%s:scan-inside-result-callback-raises' % pid, what='%s raised %s' % (c['events'][3], hook['exc']),
+                                       replay=dict(kind='pool-hook', case=dict(cfg=c['cfg'], events=c['events']), expect_soft=0)))
+            elif n_soft != 0:
+                res.alarms.append(dict(signature='%s:soft-signal-for-a-job-whose-result-was-processed' % pid,
+                                       what='job 0 finished inside its soft limit; the timeout handler scanned while its result callback was still running '
+                                            '(the limit had elapsed by then) and sent the soft-limit signal %d time(s) to its worker; history %s'
+                                            % (n_soft, json.dumps(c['events'])),
+                                       replay=dict(kind='pool-hook', case=dict(cfg=c['cfg'], events=c['events']), expect_soft=0)))
+            continue
         n_soft = 0
         where = []
         for k, (e, ob) in enumerate(zip(o['events'], obs)):
@@ -804,6 +826,32 @@ def hook_cases(res, pid):
                                         % (sum(1 for e in c['events'][2:] if e[0] == 'scan') - 1, n_soft, where, json.dumps(c['events'])),
                                    replay=dict(kind='pool-hook', case=c)))
     res.add_cov(evaluations=len(cases), traces=len(cases), hook_cases=len(cases))
+
+
+def hook_cases_C09(res, pid='C09'):
+    """a supervision pass interleaved INSIDE shrink() (the supervisor is another thread; shrink waits for
+    the semaphore in the middle): afterwards the pool has its new size, not one worker more.  Judged on the
+    implementation's observations only."""
+    cases = []
+    for n in (2, 3, 4):
+        for k in (1, 2):
+            if k >= n:
+                continue
+            cases.append(dict(cfg=dict(n=n, putlocks=True, max_restarts=100), events=[['shrink_tick', k], ['tick'], ['tick']], want=n - k))
+    outs = run_impl([dict(cfg=c['cfg'], events=c['events']) for c in cases], timeout=300)
+    for c, o in zip(cases, outs):
+        last = o['obs'][-1]
+        if any(ob['exc'] for ob in o['obs']):
+            res.alarms.append(dict(signature='%s:shrink-with-interleaved-pass-raises' % pid, what='%s: %s' % (json.dumps(c['events']), [ob['exc'] for ob in o['obs']]),
+                                   replay=dict(kind='pool-hook-size', case=dict(cfg=c['cfg'], events=c['events']), want=c['want'])))
+            continue
+        free = [w for w in last['workers'] if not w[2]]
+        if len(free) != c['want'] or last['nprocs'] != c['want']:
+            res.alarms.append(dict(signature='%s:pool-above-size-after-shrink-with-interleaved-pass' % pid,
+                                   what='Pool(%d).shrink(%d) with a supervision pass while shrink() waits for the semaphore: configured size %s, %d workers not being stopped (%d expected)'
+                                        % (c['cfg']['n'], c['events'][0][1], last['nprocs'], len(free), c['want']),
+                                   replay=dict(kind='pool-hook-size', case=dict(cfg=c['cfg'], events=c['events']), want=c['want'])))
+    res.add_cov(evaluations=len(cases), traces=len(cases), hook_cases_shrink=len(cases))
 
 
 def mon_known_C10_two_jobs(case, obs):
@@ -1958,14 +2006,21 @@ def pool_replay(path):
     d = json.load(open(path))
     rep = d.get('replay') or {}
     c = rep.get('case')
+    if rep.get('kind') == 'pool-hook-size':
+        out = run_impl([dict(cfg=c['cfg'], events=c['events'])])[0]
+        last = out['obs'][-1]
+        free = [w for w in last['workers'] if not w[2]]
+        print('configured size %s, %d workers not being stopped, %d expected' % (last['nprocs'], len(free), rep['want']))
+        return 0 if len(free) == rep['want'] == last['nprocs'] else 1
     if rep.get('kind') == 'pool-hook':
         out = run_impl([dict(cfg=c['cfg'], events=c['events'])])[0]
         n_soft = 0
         for e, o in zip(out['events'], out['obs']):
             print(json.dumps(e), '->', json.dumps(dict(ret=o['ret'], exc=o['exc'], sigs=o['sigs'])))
             n_soft += sum(1 for p_, sg in o['sigs'] if sg == 10)
-        print('soft-limit signals sent: %d (exactly one is right)' % n_soft)
-        return 0 if n_soft == 1 else 1
+        want = rep.get('expect_soft', 1)
+        print('soft-limit signals sent: %d (%d is right)' % (n_soft, want))
+        return 0 if n_soft == want else 1
     if not c and rep.get('kind') == 'pool-closed':
         c = dict(cfg=rep['cfg'], events=rep['events'])      # the parent events of the closed-system schedule
     if not c:
